@@ -42,7 +42,10 @@ def run(prop, tier):
     try:
         F.selftest_codec()
         paths, metas, lst = F.make_corpus(os.path.join(wd, "corpus"), 6, first=500000, vendor=False)
-        shared = [p for p in paths if os.path.getsize(p) < 60000][:4] + ["/repo/test/c3dFiles/Optotrak.c3d"]
+        # two more shared inputs with FEWER labels than points/channels (the loader invents names for the rest) and with events
+        p2, m2, l2 = F.make_corpus(os.path.join(wd, "corpus2"), 12, first=501000, vendor=False, force=["labels_vs_points", "events"])
+        fewer = [p for p, m in zip(p2, m2) if m["shape"].get("labels") in ("fewer", "none") and m["shape"].get("npts", 0) >= 2][:2]
+        shared = [p for p in paths if os.path.getsize(p) < 60000][:3] + fewer + ["/repo/test/c3dFiles/Optotrak.c3d"]
         slst = os.path.join(wd, "shared.txt")
         open(slst, "w").write("\n".join(shared) + "\n")
         rounds = 48 if q else 640
